@@ -1,0 +1,14 @@
+//go:build verif
+
+// Contracts for the govc verifier (see /verif/DESIGN.md). Comment-only file.
+package update
+
+//@ # abstract view: the competing network-version proposals voted for a height
+//@ ghost updateVotes(c *Update, h uint64) []*Model
+
+//@ # representation axiom (assumed): the lazily loading getter returns the view and changes nothing observable
+//@ func (*Update).GetVotes
+//@   trusted
+//@   ensures result == updateVotes(c, height)
+//@   ensures forall i int :: 0 <= i && i < len(result) ==> result[i] != nil
+//@   modifies mapof(c.list)
